@@ -3,5 +3,5 @@ CONSTANTS
   NSlots = 2
 INIT Init
 NEXT Next
-INVARIANTS InvDisjoint InvNI InvImpl InvCopyEq InvMutate InvRO
+INVARIANTS InvDisjoint InvNI InvImpl InvCopyEq InvMutate InvRO InvCopyTo InvAl
 CHECK_DEADLOCK FALSE
